@@ -54,7 +54,7 @@ Definition cds_datetime_us (t : cds) : Z :=
 Definition dt_timestamp (ud sod us : Z) : fl :=
   rne ((ud * 86400 + sod) * 1000000 + us) 1000000.
 
-(* ms_of_today(seconds_since_epoch) for an explicit float argument *)
+(* ms_of_today(seconds_since_epoch) for an explicit float argument:
+   int(math.floor(seconds_since_epoch * 1000)) % MS_PER_DAY *)
 Definition cds_ms_of_today (s : fl) : Z :=
-  let fraction_ms := fsub s (of_Z (ffloor s)) in
-  ffloor (fadd (fmul (fmod_pos s SECONDS_PER_DAY) (of_Z 1000)) fraction_ms).
+  ffloor (fmul s (of_Z 1000)) mod MS_PER_DAY.
